@@ -215,4 +215,162 @@ theorem Link_csv_dump_row (sep : Str) (esc : Char) (row : List CsvField) :
   exact Link_csv_dump_field esc f
 
 
+theorem pyReplaceAux_two (a b : Char) (new : Str) : ∀ (n : Nat) (s : Str) (fuel : Nat), s.length ≤ n → s.length < fuel →
+    pyReplaceAux [a, b] new fuel s = replace2 a b new s := by
+  intro n
+  induction n with
+  | zero =>
+    intro s fuel hn hf
+    have : s = [] := by cases s <;> simp_all
+    subst this
+    cases fuel <;> simp [pyReplaceAux, replace2]
+  | succ n ih =>
+    intro s fuel hn hf
+    match s, fuel with
+    | [], fuel => cases fuel <;> simp [pyReplaceAux, replace2]
+    | _, 0 => simp at hf
+    | [c], f + 1 =>
+      have : startsWith [a, b] [c] = false := by simp [startsWith]
+      simp only [pyReplaceAux, this, replace2]
+      cases f <;> simp [pyReplaceAux]
+    | c :: d :: r, f + 1 =>
+      have hlen : (d :: r).length ≤ n := by simp at hn ⊢; omega
+      have hf' : (d :: r).length < f := by simp at hf ⊢; omega
+      by_cases h : c = a ∧ d = b
+      · obtain ⟨h1, h2⟩ := h
+        subst h1 h2
+        have : startsWith [c, d] (c :: d :: r) = true := by simp [startsWith]
+        simp only [pyReplaceAux, this, if_true, replace2, and_self, List.length_cons, List.length_nil]
+        congr 1
+        have := ih r f (by simp at hlen ⊢; omega) (by simp at hf' ⊢; omega)
+        simpa using this
+      · have : startsWith [a, b] (c :: d :: r) = false := by
+          simp only [startsWith, List.length_cons, List.length_nil, List.take]
+          simp only [beq_eq_false_iff_ne, ne_eq, List.cons.injEq, and_true]
+          exact h
+        simp only [pyReplaceAux, this, replace2, h, if_false, Bool.false_eq_true]
+        congr 1
+        exact ih (d :: r) f hlen hf'
+
+theorem pyReplace_two (a b : Char) (new s : Str) : pyReplace [a, b] new s = replace2 a b new s := by
+  simp [pyReplace, pyReplaceAux_two a b new s.length s (s.length + 1) (Nat.le_refl _) (by omega)]
+
+theorem getChar_zero (c : Char) (r : List Char) : PyStr.getChar (c :: r) 0 = .ok [c] := by
+  simp [PyStr.getChar, PyStr.idx]
+
+theorem slice_inner (c : Char) (r : List Char) : PyStr.slice (c :: r) 1 (-1) = r.dropLast := by
+  simp only [PyStr.slice, PyStr.bound, List.length_cons]
+  have h1 : ¬ (0 : Int) ≤ -1 := by omega
+  have h2 : (0 : Int) ≤ 1 := by omega
+  simp only [h1, h2, if_true, if_false]
+  have : (-(-1 : Int)).toNat = 1 := by decide
+  simp only [this]
+  have e1 : min (Int.toNat 1) (r.length + 1) = 1 := by simp
+  have e2 : r.length + 1 - min 1 (r.length + 1) = r.length := by omega
+  rw [e1, e2]
+  cases r <;> simp [List.dropLast_eq_take]
+
+theorem Link_csv_parse_field (esc : Char) (i : List Char) : Gen.csv_parse_field [esc] i = .ok (unquote esc i) := by
+  unfold Gen.csv_parse_field unquote
+  cases i with
+  | nil => simp; rfl
+  | cons c r =>
+    have hpos : decide (Int.ofNat (c :: r).length > 0) = true := by simp
+    simp only [hpos, if_true, getChar_zero]
+    by_cases hc : c = '"'
+    · subst hc
+      rcases List.eq_nil_or_concat r with hr | ⟨init, a, hr⟩
+      · subst hr
+        have : PyStr.getChar ['"'] (-1) = .ok ['"'] := getChar_last [] '"'
+        simp [this, slice_inner, pyReplace_two, bind, Except.bind, pure, Except.pure]
+      · rw [List.concat_eq_append] at hr
+        subst hr
+        have hl : PyStr.getChar ('"' :: (init ++ [a])) (-1) = .ok [a] := getChar_last ('"' :: init) a
+        have hlast : ('"' :: (init ++ [a])).getLast? = some a := by
+          rw [← List.cons_append, List.getLast?_append]; simp
+        by_cases ha : a = '"'
+        · subst ha
+          simp [hl, hlast, slice_inner, pyReplace_two, bind, Except.bind, pure, Except.pure]
+        · simp [hl, hlast, ha, bind, Except.bind, pure, Except.pure]
+    · have : ¬ ([c] = ['"']) := by simpa using hc
+      simp [this, hc, bind, Except.bind, pure, Except.pure]
+
+/-- the typed parsers of a schema, as `columns_parser[index]` -/
+def colParser (types : List CsvType) (index : Nat) (s : Str) : Except Err CsvField :=
+  match types[index]? with
+  | some ty => parseField ty s
+  | none => .error "IndexError"
+
+theorem tryCatch_rethrow {α} (m : Except Err (Option α)) :
+    tryCatch m (fun e => if false = true then pure none else throw e) = m := by
+  cases m <;> simp [tryCatch, tryCatchThe, MonadExceptOf.tryCatch, Except.tryCatch, throw, throwThe, MonadExceptOf.throw]
+
+theorem mapM_gen_fields (esc : Char) (all : List CsvType) : ∀ (parts : List Str) (tys : List CsvType) (k : Nat),
+    parts.length = tys.length → (∀ j, j < tys.length → all[k + j]? = tys[j]?) →
+    (parts.zipIdx k).mapM (fun (p : List Char × Nat) => do
+        let i := p.1
+        let index := p.2
+        let i ← Gen.csv_parse_field [esc] i
+        if ([] : List (List Char)).contains i then pure none
+        else do
+          let t ← colParser all index i
+          pure (some t))
+      = ((parts.zip tys).mapM (fun p => parseField p.2 (unquote esc p.1))).map (List.map some) := by
+  intro parts
+  induction parts with
+  | nil => intro tys k h _; cases tys <;> simp_all [pure, Except.pure, Except.map]
+  | cons p ps ih =>
+    intro tys k h hall
+    cases tys with
+    | nil => simp at h
+    | cons ty tys =>
+      have h0 : all[k]? = some ty := by simpa using hall 0 (by simp)
+      have ih' := ih tys (k + 1) (by simpa using h) (by
+        intro j hj
+        have := hall (j + 1) (by simp; omega)
+        simpa [Nat.add_assoc, Nat.add_comm 1 j] using this)
+      rw [List.zipIdx_cons, List.mapM_cons, List.zip_cons_cons, List.mapM_cons, ih']
+      simp only [Link_csv_parse_field, List.contains_nil, Bool.false_eq_true, if_false, colParser, h0]
+      cases hp : parseField ty (unquote esc p) with
+      | error e => simp [hp, bind, Except.bind, Except.map, pure, Except.pure]
+      | ok v =>
+        cases hr : (ps.zip tys).mapM (fun p => parseField p.2 (unquote esc p.1)) with
+        | error e => simp [hp, hr, bind, Except.bind, Except.map, pure, Except.pure]
+        | ok vs => simp [hp, hr, bind, Except.bind, Except.map, pure, Except.pure]
+
+/-- **`parse_line`** of `create_line_parser` (generated from rxsci/container/csv.py), with the typed column parsers of a schema, no
+`none_values` and `ignore_error=False`, is the model's `parseLine`: split, `merge_escape_parts` when the column count is off, the
+column-count error, un-quoting and un-escaping of every field, the typed parser of its column -/
+theorem Link_csv_parse_line (sep : Str) (esc : Char) (types : List CsvType) (line : Str) :
+    Gen.csv_parse_line sep [esc] [] false (colParser types) types.length line
+      = (parseLine sep esc types line).map (fun l => some (l.map some)) := by
+  unfold Gen.csv_parse_line parseLine
+  rw [tryCatch_rethrow]
+  by_cases h1 : (pySplit sep line).length = types.length
+  · have hb : ((pySplit sep line).length != types.length) = false := by simp [h1]
+    have hn : ¬ (pySplit sep line).length ≠ types.length := by simp [h1]
+    have := mapM_gen_fields esc types (pySplit sep line) types 0 h1 (by intro j _; simp)
+    simp only [pure, Except.pure, bind, Except.bind] at this ⊢
+    simp only [hb, hn, Bool.false_eq_true, if_false]
+    rw [this]
+    cases (List.mapM (fun p => parseField p.2 (unquote esc p.1)) ((pySplit sep line).zip types)) <;> simp [Except.map]
+  · have hb : ((pySplit sep line).length != types.length) = true := by simp [h1]
+    have hn : (pySplit sep line).length ≠ types.length := h1
+    simp only [pure, Except.pure, bind, Except.bind]
+    simp only [hb, hn, if_true, Link_merge_parts]
+    by_cases h2 : (mergeParts sep esc none (pySplit sep line)).length = types.length
+    · have hb2 : ((mergeParts sep esc none (pySplit sep line)).length != types.length) = false := by simp [h2]
+      have hn2 : ¬ (mergeParts sep esc none (pySplit sep line)).length ≠ types.length := by simp [h2]
+      have := mapM_gen_fields esc types (mergeParts sep esc none (pySplit sep line)) types 0 h2 (by intro j _; simp)
+      simp only [pure, Except.pure, bind, Except.bind] at this
+      simp only [hb2, Bool.false_eq_true, if_false]
+      simp only [if_pos hn, if_neg hn2]
+      rw [this]
+      cases (List.mapM (fun p => parseField p.2 (unquote esc p.1)) ((mergeParts sep esc none (pySplit sep line)).zip types)) <;>
+        simp [Except.map]
+    · have hb2 : ((mergeParts sep esc none (pySplit sep line)).length != types.length) = true := by simp [h2]
+      have hn2 : (mergeParts sep esc none (pySplit sep line)).length ≠ types.length := h2
+      simp only [hb2, if_true, if_pos hn, if_pos hn2]
+      simp [throw, throwThe, MonadExceptOf.throw, Except.map]
+
 end Rx
